@@ -19,6 +19,6 @@ build_and_demo() {  # $1 = label
 echo "== without the change"; build_and_demo base
 git -C "$W" apply "$SD/patch.diff" || { echo "PATCH-DOES-NOT-APPLY"; exit 2; }
 echo "== with the change"; build_and_demo seeded
-echo "== pinned tests with the change"; ctest --test-dir "$W/_build" -j4 --timeout 900 2>&1 | grep -E "tests passed|tests failed|\*\*\*Failed|Timeout"
+echo "== pinned tests with the change"; ctest --test-dir "$W/_build" -j4 --timeout 900 --repeat until-pass:2 2>&1 | grep -E "tests passed|tests failed|\*\*\*Failed|Timeout"
 echo "== ./check $PROP --tier $TIER against the seeded tree"
 (cd /verif && VERIF_REPO="$W" ./check "$PROP" --tier "$TIER" > "$W/check.out" 2>&1; echo "violation_lines=$(grep -c '^VIOLATION' "$W/check.out")"; grep -E "^VIOLATION" "$W/check.out" | head -2; grep -A1 -E "^VIOLATION" "$W/check.out" | grep sub_check | sort | uniq -c | sort -rn | head -4 | cut -c1-200; grep -E "^C[0-9]+ tier|CHECK-BROKEN" "$W/check.out")
